@@ -33,16 +33,20 @@ CONSTANTS MaxRekey,   \* re-exchanges explored
                       \* every exchange, the first or a re-exchange, picks one (C05 decides which)
           Mut         \* "none" | seeded design error (sensitivity): "skip_verify", "sid_overwrite",
                       \* "verify_before_hash_binding", "ignore_sig_alg", "verify_only_new_key",
-                      \* "sid_by_digest_size"
+                      \* "sid_by_digest_size", "hash_masked_pub"
 
-AllFields == {"hostkey", "pub", "sig", "sigalg", "group"}
+\* "pubbit" / "initbit": a bit of f / Q_S (of e / Q_C on its way to the server) that the DH function itself ignores
+\* (e.g. the top bit of an X25519 u-coordinate): K is unchanged, only the transcript hash can notice
+AllFields == {"hostkey", "pub", "pubbit", "initbit", "sig", "sigalg", "group"}
 HostAlg   == "alg"                      \* the negotiated host-key signature algorithm (C05 decides it)
 None      == <<"none">>
 NoNet     == [ks |-> None, f |-> None, sig |-> None, alg |-> "-"]      \* nothing in flight
 
 (* ---- symbolic terms -------------------------------------------------------- *)
 Sec(role, i)      == <<role, i>>                       \* ephemeral secret of `role` in exchange i
-Pub(x, G)         == <<"pub", x, G>>
+Pub(x, G)         == <<"pub", x, G, 0>>                \* 4th component: bits on the wire the DH function ignores
+FlipIgnored(p)    == <<p[1], p[2], p[3], 1 - p[4]>>
+Mask(p)           == <<p[1], p[2], p[3], 0>>
 DH(x, pub, G)     == IF pub[3] = G THEN <<"dh", {x, pub[2]}, G>>
                                    ELSE <<"dh", {x, Sec("mixed", 0)}, G>>   \* value computed in another group
 Pk(k)             == <<"pk", k>>
@@ -63,6 +67,7 @@ VARIABLES n,          \* index of the current exchange (0 = first)
           cst,        \* client: "idle" | "init_sent" | "kh_set" | "done" | "aborted"
           sst,        \* server: "idle" | "replied"
           ce,         \* client's e for this exchange
+          se,         \* e as the server receives it
           cgrp,       \* group the client uses (as delivered to it)
           net,        \* what is in flight to the client: NoNet or [ks, f, sig, alg]
           cK, cH, cSid, cShown, cSig,
@@ -71,9 +76,9 @@ VARIABLES n,          \* index of the current exchange (0 = first)
           altered,    \* fields altered in the current exchange
           attacked,   \* the attacker has used its one edit
           first       \* ghost: <<H of the client's first exchange, H of the server's first exchange>>
-vars == <<n, meth, meths, cst, sst, ce, cgrp, net, cK, cH, cSid, cShown, cSig, cHostKey, sK, sH, sSid, altered, attacked, first>>
+vars == <<n, meth, meths, cst, sst, ce, se, cgrp, net, cK, cH, cSid, cShown, cSig, cHostKey, sK, sH, sSid, altered, attacked, first>>
 
-Init == /\ n = 0 /\ meth = "-" /\ meths = <<>> /\ cst = "idle" /\ sst = "idle" /\ ce = None /\ cgrp = HonestGroup /\ net = NoNet
+Init == /\ n = 0 /\ meth = "-" /\ meths = <<>> /\ cst = "idle" /\ sst = "idle" /\ ce = None /\ se = None /\ cgrp = HonestGroup /\ net = NoNet
         /\ cK = None /\ cH = None /\ cSid = None /\ cShown = None /\ cSig = None /\ cHostKey = None
         /\ sK = None /\ sH = None /\ sSid = None
         /\ altered = {} /\ attacked = FALSE /\ first = <<None, None>>
@@ -84,7 +89,7 @@ ClientStartKex ==
     /\ cst = "idle"
     /\ \E g \in (IF Gex /\ n = 0 /\ ~attacked /\ "group" \in Fields THEN {HonestGroup, "G2"} ELSE {HonestGroup}) :
          /\ cgrp' = g
-         /\ ce' = Pub(Sec("c", n), g)
+         /\ ce' = Pub(Sec("c", n), g) /\ se' = Pub(Sec("c", n), g)
          /\ altered' = IF g # HonestGroup THEN {"group"} ELSE {}
          /\ attacked' = (attacked \/ g # HonestGroup)
     /\ \E m \in Methods : meth' = m /\ meths' = Append(meths, m)
@@ -97,36 +102,46 @@ SetSid(old, h) == IF \/ old = None
                      \/ (Mut = "sid_by_digest_size" /\ old # None /\ old[2] # h[2])
                   THEN h ELSE old
 
+\* what goes into the exchange hash for a received public value: the octets received (seeded error: a masked copy)
+Hashed(p) == IF Mut = "hash_masked_pub" THEN Mask(p) ELSE p
+
+AlterInit ==
+    /\ n = 0 /\ ~attacked /\ cst = "init_sent" /\ sst = "idle" /\ "initbit" \in Fields
+    /\ se' = FlipIgnored(se)
+    /\ altered' = altered \cup {"initbit"} /\ attacked' = TRUE
+    /\ UNCHANGED <<n, meth, meths, cst, sst, ce, cgrp, net, cK, cH, cSid, cShown, cSig, cHostKey, sK, sH, sSid, first>>
+
 ServerReply ==
     /\ sst = "idle" /\ cst = "init_sent"
     /\ LET f == Pub(Sec("s", n), HonestGroup)
-           k == DH(Sec("s", n), ce, HonestGroup)
-           h == ExHash(meth, Pk(ServerKey), HonestGroup, ce, f, k)
+           k == DH(Sec("s", n), se, HonestGroup)
+           h == ExHash(meth, Pk(ServerKey), HonestGroup, Hashed(se), f, k)
        IN  /\ sK' = k /\ sH' = h /\ sSid' = SetSid(sSid, h)
            /\ first' = IF n = 0 THEN <<first[1], h>> ELSE first
            /\ net' = [ks |-> Pk(ServerKey), f |-> f, sig |-> Sig(ServerKey, HostAlg, h), alg |-> HostAlg]
     /\ sst' = "replied"
-    /\ UNCHANGED <<n, meth, meths, cst, ce, cgrp, cK, cH, cSid, cShown, cSig, cHostKey, altered, attacked>>
+    /\ UNCHANGED <<n, meth, meths, cst, ce, se, cgrp, cK, cH, cSid, cShown, cSig, cHostKey, altered, attacked>>
 
 (* exactly one field gets a different VALUE (not merely another encoding) *)
 Alter(fld) ==
-    /\ ~attacked /\ net # NoNet /\ cst = "init_sent" /\ fld \in Fields \ {"group"}
+    /\ ~attacked /\ net # NoNet /\ cst = "init_sent" /\ fld \in Fields \ {"group", "initbit"}
     /\ net' = CASE fld = "hostkey" -> [net EXCEPT !.ks = Pk(AttackerKey)]
                 [] fld = "pub"     -> [net EXCEPT !.f = Pub(Sec("a", 0), HonestGroup)]
+                [] fld = "pubbit"  -> [net EXCEPT !.f = FlipIgnored(net.f)]
                 [] fld = "sig"     -> [net EXCEPT !.sig = Sig("nobody", HostAlg, sH)]
                 [] fld = "sigalg"  -> [net EXCEPT !.alg = "alg2"]      \* the blob now names another algorithm
     /\ altered' = altered \cup {fld} /\ attacked' = TRUE
-    /\ UNCHANGED <<n, meth, meths, cst, sst, ce, cgrp, cK, cH, cSid, cShown, cSig, cHostKey, sK, sH, sSid, first>>
+    /\ UNCHANGED <<n, meth, meths, cst, sst, ce, se, cgrp, cK, cH, cSid, cShown, cSig, cHostKey, sK, sH, sSid, first>>
 
 ClientSetKH ==
     /\ cst = "init_sent" /\ net # NoNet
     /\ LET k == DH(Sec("c", n), net.f, cgrp)
-           h == ExHash(meth, net.ks, cgrp, ce, net.f, k)
+           h == ExHash(meth, net.ks, cgrp, ce, Hashed(net.f), k)
        IN  /\ cK' = k /\ cH' = h /\ cSid' = SetSid(cSid, h)
            /\ first' = IF n = 0 THEN <<h, first[2]>> ELSE first
     /\ cShown' = net.ks /\ cSig' = net.sig
     /\ cst' = "kh_set"
-    /\ UNCHANGED <<n, meth, meths, sst, ce, cgrp, net, cHostKey, sK, sH, sSid, altered, attacked>>
+    /\ UNCHANGED <<n, meth, meths, sst, ce, se, cgrp, net, cHostKey, sK, sH, sSid, altered, attacked>>
 
 (* the relabelled signature is a signature made with HostAlg whose blob claims net.alg; verification under  *)
 (* the negotiated algorithm must fail for it                                                              *)
@@ -142,14 +157,14 @@ ClientVerifyKey ==
     /\ cst' = IF Passes THEN "done" ELSE "aborted"
     /\ cHostKey' = IF Passes THEN cShown ELSE cHostKey
     /\ net' = NoNet
-    /\ UNCHANGED <<n, meth, meths, sst, ce, cgrp, cK, cH, cSid, cShown, cSig, sK, sH, sSid, altered, attacked, first>>
+    /\ UNCHANGED <<n, meth, meths, sst, ce, se, cgrp, cK, cH, cSid, cShown, cSig, sK, sH, sSid, altered, attacked, first>>
 
 Rekey ==
     /\ cst = "done" /\ sst = "replied" /\ n < MaxRekey
     /\ n' = n + 1 /\ cst' = "idle" /\ sst' = "idle" /\ altered' = {} /\ cgrp' = HonestGroup
-    /\ UNCHANGED <<meth, meths, ce, net, cK, cH, cSid, cShown, cSig, cHostKey, sK, sH, sSid, attacked, first>>
+    /\ UNCHANGED <<meth, meths, ce, se, net, cK, cH, cSid, cShown, cSig, cHostKey, sK, sH, sSid, attacked, first>>
 
-Next == ClientStartKex \/ ServerReply \/ (\E f \in Fields : Alter(f)) \/ ClientSetKH \/ ClientVerifyKey \/ Rekey
+Next == ClientStartKex \/ AlterInit \/ ServerReply \/ (\E f \in Fields : Alter(f)) \/ ClientSetKH \/ ClientVerifyKey \/ Rekey
 Spec == Init /\ [][Next]_vars
 
 (* ---- the property, as predicates over observable values (shared with Kex_Trace) ---- *)
